@@ -48,6 +48,9 @@ func Keygen(group curve.Curve, selfID party.ID, participants []party.ID, thresho
 // The group's ECDSA public key remains the same, but any previous shares are rendered useless.
 // Returns *cmp.Config if successful.
 func Refresh(config *Config, pl *pool.Pool) protocol.StartFunc {
+	if err := config.Validate(); err != nil {
+		return func([]byte) (round.Session, error) { return nil, err }
+	}
 	info := round.Info{
 		ProtocolID:       "cmp/refresh-threshold",
 		FinalRoundNumber: keygen.Rounds,
